@@ -15,7 +15,7 @@ W = dict(move=24, moveabs=10, setaxis=6, home=3, probe=7, dist=5, enter=3, exit=
          poweron=5, poweroff=3, coolon=4, cooloff=3, toolchange=5, halt=9, ehalt=1, temp=6, misc=7, bounds=7, hook=3)
 FINDING = "C05-absolute-bypass-hook-params"
 INIT = ("out=ok stmts=- pos=~,~,~ spos=0,0,0 rel=0 srel=0 tool=0 coola=0 spin=off pmode=off cool=off power=0 feed=0 tnum=0 "
-        "swap=off bed=~ hot=~ ch=~ erel=0 fmode=1 inches=0 plane=0 ccw=0 res=1/10 ms=0 kelvin=0 params=- nhook=0 lasthook=-")
+        "swap=off halt=off bed=~ hot=~ ch=~ erel=0 fmode=1 inches=0 plane=0 ccw=0 res=1/10 ms=0 kelvin=0 params=- nhook=0 lasthook=-")
 
 
 def oracle(lines, recs, im):
